@@ -8,6 +8,11 @@ swapped arguments     a call passes the local named like parameter B in the
 stale lower-bound     `if v < K: raise ...` on a local v that is decremented
 guard                 later in the same block: the guard no longer holds for
                       the value actually used.
+presence by           whether a dictionary entry is *present* is decided by the
+truthiness            truthiness of d.get(k): `d.get(k) or default`, `if d.get(k):`,
+                      `v = d.get(k) ... if not v:` -- an entry holding 0, False,
+                      "" or an empty container is then treated as absent.  Two
+                      reviewed instances on the tree are sanctioned by name.
 """
 import ast
 
@@ -62,6 +67,39 @@ def stale_lower_bound_guards(m):
     return out
 
 
+# reviewed: (module suffix, function) -> why truthiness is the intended test there
+TRUTHINESS_SANCTIONED = {
+    ("decoder.stream", "parse_info"): "a next_parse_offset of 0 means 'not given' (10.5.1): zero and absent are deliberately treated alike",
+    ("test_cases.bit_widths_common", "get_bundle_filename"): "an empty environment variable means 'use the default file name'",
+}
+
+
+def _is_get(e):
+    return isinstance(e, ast.Call) and isinstance(e.func, ast.Attribute) and e.func.attr == "get" and 1 <= len(e.args) <= 2 and not e.keywords
+
+
+def truthiness_presence(m):
+    out = []
+    for fn in [f for f in ast.walk(m.tree) if isinstance(f, (ast.FunctionDef, ast.AsyncFunctionDef))]:
+        gets = {}
+        for n in ast.walk(fn):
+            if isinstance(n, ast.Assign) and len(n.targets) == 1 and isinstance(n.targets[0], ast.Name) and _is_get(n.value):
+                d = n.value.args[1] if len(n.value.args) == 2 else None
+                if d is None or (isinstance(d, ast.Constant) and d.value is None):
+                    gets[n.targets[0].id] = n
+        for n in ast.walk(fn):
+            if isinstance(n, ast.BoolOp) and isinstance(n.op, ast.Or):
+                for v in n.values[:-1]:
+                    if _is_get(v) or (isinstance(v, ast.Name) and v.id in gets):
+                        out.append((fn, n, "`%s`: a present but falsy entry (0, False, empty) is replaced by the fallback" % short(n, 60)))
+            test = getattr(n, "test", None) if isinstance(n, (ast.If, ast.IfExp, ast.While)) else None
+            if test is not None:
+                t = test.operand if isinstance(test, ast.UnaryOp) and isinstance(test.op, ast.Not) else test
+                if _is_get(t) or (isinstance(t, ast.Name) and t.id in gets):
+                    out.append((fn, n, "`%s` decides presence by truthiness%s: an entry holding 0 / False / an empty value is treated as absent" % (short(test, 50), " (%s)" % short(gets[t.id], 50) if isinstance(t, ast.Name) else "")))
+    return out
+
+
 FIXTURE = '''
 def area(w, h):
     return w * h
@@ -70,6 +108,11 @@ def f(w, h, n):
         raise ValueError()
     n -= 7
     return area(h, w) + n
+def g(d):
+    v = d.get("k")
+    if not v:
+        v = []
+    return d.get("n") or 1
 '''
 
 
@@ -96,7 +139,7 @@ def selfcheck():
                 return s
             return None
 
-    if len(swapped_arguments(R(), m)) != 1 or len(stale_lower_bound_guards(m)) != 1:
+    if len(swapped_arguments(R(), m)) != 1 or len(stale_lower_bound_guards(m)) != 1 or len(truthiness_presence(m)) != 2:
         raise AnalysisError("bug-pattern rules no longer recognise their positive fixture")
 
 
@@ -107,5 +150,6 @@ def rule(repo, res, rid, modules):
         m = repo.mod(name)
         sw = swapped_arguments(repo, m)
         st = stale_lower_bound_guards(m)
-        bad = ["%s in %s (line %d)" % (why, fn.name, n.lineno) for fn, n, why in sw] + ["%s in %s" % (why, fn.name) for fn, n, why in st]
-        res.check(not bad, rid, "bug-patterns:%s" % name, m.rel, "; ".join(bad), by="no swapped same-named arguments, no lower-bound guard followed by a decrement of the guarded local")
+        tp = [(fn, n, why) for fn, n, why in truthiness_presence(m) if (name, fn.name) not in TRUTHINESS_SANCTIONED]
+        bad = ["%s in %s (line %d)" % (why, fn.name, n.lineno) for fn, n, why in sw] + ["%s in %s" % (why, fn.name) for fn, n, why in st] + ["%s in %s (line %d)" % (why, fn.name, n.lineno) for fn, n, why in tp]
+        res.check(not bad, rid, "bug-patterns:%s" % name, m.rel, "; ".join(bad), by="no swapped same-named arguments, no lower-bound guard followed by a decrement, no presence-by-truthiness of a dictionary entry")
